@@ -31,22 +31,18 @@ def _P(k):
 
 def leap_table(formula, year_sym, lang):
     """evaluate the formula on the four consistent valuations; returns list of (d4, d100, d400, value)."""
-    tag = 'tmod' if lang == 'c' else 'fmod'
-    bases = {}
-    for k in (4, 100, 400):
-        bases[k] = Poly.atom((tag, Poly.atom(('sym', year_sym)).key(), Poly.const(k).key())).key()
-    out = []
-    from .gnf import Valuation
-    atoms = formula_atoms(formula)
-    for a in atoms:
-        if a[0] != 'atom' or a[1] not in bases.values() or a[3] != 0:
-            raise AnalysisError('leap-year predicate contains an atom other than year %% {4,100,400} == 0: %r' % (a,))
-    for d4, d100, d400 in ((0, 0, 0), (1, 0, 0), (1, 1, 0), (1, 1, 1)):
-        regs = {}
-        for k, d in ((4, d4), (100, d100), (400, d400)):
-            regs[bases[k]] = ('pt', 0) if d else ('gap', 0, None)
-        out.append((d4, d100, d400, Valuation(regs, {}).eval(formula)))
-    return out
+    from .gnf import arith_assign, eval_formula
+    seen = {}
+    # the predicate is a closed arithmetic formula in the year: give it its meaning on every year of the supported range
+    for y in range(1872, 2129):
+        try:
+            v = eval_formula(formula, arith_assign({year_sym: y}, lang))
+        except (KeyError, TypeError):
+            raise AnalysisError('leap-year predicate is not a closed arithmetic formula in %s: %r' % (year_sym, formula))
+        key = (int(y % 4 == 0), int(y % 100 == 0), int(y % 400 == 0))
+        if key not in seen or seen[key][0] == bool((key[0] and not key[1]) or key[2]):
+            seen[key] = (bool(v), y)
+    return [(k[0], k[1], k[2], v) for k, (v, _y) in sorted(seen.items())]
 
 
 def run(cfg):
